@@ -279,6 +279,8 @@ def run(chk):
     chk.cov["snapshot_assumption"] = snap
 
     import c11_stress
+    import c11_twoindex
+    c11_twoindex.run(chk, binary)
     c11_stress.run(chk, binary)
     chk.assumptions += [
         "events are ingested with consecutive ids, so 'flushed before the search began' is a prefix 1..lo",
